@@ -180,6 +180,7 @@ struct Dispatcher::Data {
             }
 #if DOUBLE_LOCK
             lock.lock();
+            MUSTACHE_VERIF_SCHED(25, thread_id.toInt(), verifQueueNumber(queue), 0u); // before the state becomes visible to wait()
             queue->onTaskEnd();
             MUSTACHE_VERIF_SCHED(5, thread_id.toInt(), verifQueueNumber(queue), 0u);
 #endif
@@ -262,6 +263,7 @@ Dispatcher::~Dispatcher() {
     if(!data_) {
         return;
     }
+    MUSTACHE_VERIF_SCHED(24, 0u, 0u, 0u); // before the flag becomes visible to the workers
     data_->terminate = true;
     MUSTACHE_VERIF_SCHED(21, 0u, 0u, 0u);
     clear();
